@@ -33,4 +33,7 @@ PoolC08 == {S(N("ok")), S(C(1,"ok")), S(InvNote), G, E, B2(C(1,"ok"), N("ok")), 
 PoolC09 == {S(C(1,"ok")), S(N("ok")), S(R(1)), S(R(2)), B2(R(1), C(1,"ok")), B2(R(1), R(1))}
 PoolC09r == {S(R(1)), S(R(2)), S(N("ok"))}
 PoolSmall == {S(N("ok")), S(C(1,"ok")), G}
+\* every message shape of every family at once: simulation only (srv_all), for the cross-feature behaviours
+\* no single-property configuration contains (cancellation x push x faults x restart)
+PoolAll == PoolC01 \cup PoolC03 \cup PoolC06 \cup PoolC07 \cup PoolC08 \cup PoolC09
 ================================================================================
